@@ -11,9 +11,10 @@ Local Open Scope string_scope.
 Lemma shape_is_known : shape_known = true.
 Proof. reflexivity. Qed.
 
-(* both defects are repaired in the current source: a missing call target is an error, not a panic, and the
-   in-progress branch of visitEndpoint deactivates only what it activated itself *)
-Definition variant_fixed : variant := {| v_lookup_panics := false; v_inprog_unguarded := false |}.
+(* the three defects are repaired in the current source: a missing call target is an error, not a panic; the
+   in-progress branch of visitEndpoint deactivates only what it activated itself; a statement without `Stmt` (the
+   default arm of visitStatment's type switch) is an error, not a panic *)
+Definition variant_fixed : variant := {| v_lookup_panics := false; v_inprog_unguarded := false; v_nil_panics := false |}.
 Lemma variant_now_fixed : variant_now = variant_fixed.
 Proof. reflexivity. Qed.
 
@@ -42,11 +43,12 @@ Lemma agent_table_is_model :
 Proof. repeat split; reflexivity. Qed.
 
 (* visitStatment: one arm per statement kind of the model (Action covers Action and Dots; Cond, Loop, LoopN,
-   Foreach, Group are the five block kinds), anything else panics *)
+   Foreach, Group are the five block kinds), anything else - SeqModel.Nil, a statement whose oneof is not set - is an error
+   (before the repair: ("default","panic"), and variant_now said v_nil_panics := true) *)
 Lemma stmt_arms_expected :
   stmt_arms = [("Action","visitAction"); ("Alt","visitAlt"); ("Call","visitCall"); ("Cond","visitCond");
                ("Foreach","visitForeach"); ("Group","visitGroup"); ("Loop","visitLoop"); ("LoopN","visitLoopN");
-               ("Ret","visitRet"); ("default","panic")].
+               ("Ret","visitRet"); ("default","error")].
 Proof. reflexivity. Qed.
 
 (* the five block visitors all go through visitGroupStmt (open, body, "end") with the model's keyword and forward
@@ -107,4 +109,8 @@ Proof. reflexivity. Qed.
    and nothing asks it to: warnings are not part of the property.) *)
 Lemma option_layer_repaired :
   (fmt_checked_now, bbattr_guarded_now, onechar_in_heap_now, ep_layered_now) = (true, true, false, true).
+Proof. reflexivity. Qed.
+Lemma fmt_checked_now_true : fmt_checked_now = true.
+Proof. reflexivity. Qed.
+Lemma bbattr_guarded_now_true : bbattr_guarded_now = true.
 Proof. reflexivity. Qed.
